@@ -11,7 +11,7 @@ open Refmt
 
 def splitColon : Bytes → Bytes → Option (Bytes × Bytes)
   | [], _ => none
-  | c :: rest, acc => if c == 58 then some (acc.reverse, rest) else splitColon rest (c :: acc)
+  | c :: rest, acc => if c == 31 then some (acc.reverse, rest) else splitColon rest (c :: acc)
 
 /-- strconv.ParseInt(s, 10, 64) restricted to what the library accepts (no leading '+') -/
 def parseInt64 (s : Bytes) : Option Int :=
@@ -24,7 +24,7 @@ def parseInt64 (s : Bytes) : Option Int :=
     else (if v < two63 then some (v : Int) else none)
 
 def trM : Nat → Val → Option Val
-  | 1, .struct [.str a, .str b] => some (.str (a ++ [58] ++ b))
+  | 1, .struct [.str a, .str b] => some (.str (a ++ [31] ++ b))
   | 2, .int n => some (.str (intDigits n))
   | 3, .struct [.uint x, .uint y] => some (.bytes (some [x, y]))
   | 4, .struct [l] => some l
